@@ -12,12 +12,13 @@ const (
 	cstPairKey = "Key"
 	cstPairVal = "Val"
 
-	cstIterator       = "Iterator"
-	cstNewStringIter  = "NewStringIter"
-	cstNewIntegerIter = "NewIntegerIter"
-	cstNewSliceIter   = "NewSliceIter"
-	cstNewMapIter     = "NewMapIter"
-	cstNewChanIter    = "NewChanIter"
+	cstIterator         = "Iterator"
+	cstNewStringIter    = "NewStringIter"
+	cstNewIntegerIter   = "NewIntegerIter"
+	cstNewIntegerIterOf = "NewIntegerIterOf"
+	cstNewSliceIter     = "NewSliceIter"
+	cstNewMapIter       = "NewMapIter"
+	cstNewChanIter      = "NewChanIter"
 
 	cstSeq      = "Seq"
 	cstStart    = "Start"
